@@ -165,7 +165,7 @@ def run(ctx):
         c.update({"seed": rnd.randrange(1, 1 << 30), "mseed": rnd.randrange(1, 1 << 30), "live": 1, "threads": rnd.choice([1, 2, 3, 4]),
                   "lps": rnd.choice([2, 3, 4, 6, 8]), "thr": rnd.choice([0, 5, 20, 60]),
                   "spread": rnd.choice([0, 3, 10, 2000, 2003, 3010]), "period": rnd.choice([0, 10, 1000]),
-                  "batch": rnd.choice([0, 2, 8]), "budget": 400000, "mem": 0})
+                  "batch": rnd.choice([0, 2, 8]), "budget": 1200000, "mem": 0})
         c.pop("tterm", None)
         lcfgs.append(c)
     lagg = runlib.Agg()
